@@ -146,13 +146,20 @@ Proof.
 Qed.
 Lemma Kp_ht_inactivity s0 now s : Kp s0 s -> Kp s0 (fst (ht_inactivity now s)).
 Proof. intros H. unfold ht_inactivity, c_limit_reached. pass_kp s0. Qed.
-Lemma Kp_ht_phase s0 now s : Kp s0 s -> Kp s0 (ht_phase now s).
+Lemma Kp_ht_nak s0 now s : Kp s0 s -> Kp s0 (ht_nak now s).
 Proof.
-  intros H. unfold ht_phase, c_limit_reached, c_timeout_occurred.
+  intros H. unfold ht_nak, c_timeout_occurred.
+  repeat (first [destr_pair_keep | destr_inner]; cbn [fst snd]); try kp s0.
+Qed.
+Lemma Kp_ht_ackphase s0 now s : Kp s0 s -> Kp s0 (ht_ackphase now s).
+Proof.
+  intros H. unfold ht_ackphase, c_limit_reached, c_timeout_occurred.
   repeat (first [destr_pair_keep | destr_inner]; cbn [fst snd]);
     try (apply Kp_set_fin_flag); try kp s0.
   all: try (eapply (Kp_ext s0 (set_fin_flag true _)); [apply Kp_set_fin_flag; kp s0 | reflexivity ..]).
 Qed.
+Lemma Kp_ht_phase s0 now s : Kp s0 s -> Kp s0 (ht_phase now s).
+Proof. intros H. unfold ht_phase. apply Kp_ht_ackphase. apply Kp_ht_nak. exact H. Qed.
 Lemma Kp_handle_timeout s0 now s : Kp s0 s -> Kp s0 (handle_timeout now s).
 Proof.
   intros H. unfold handle_timeout.
